@@ -172,12 +172,19 @@ pub fn into_tokens(c: char, it: &mut Peekable<Chars>, state: &mut State) -> LexR
             let mut build_cur_expr = 0;
             let mut cur_offset = CaretPos::start();
             let mut cur_expr = String::new();
+            // Position of the next character of the string in the source.
+            let mut caret = state.pos.offset_pos(1);
 
             for c in it {
                 if !back_slash && build_cur_expr == 0 && c == '"' {
                     break;
                 }
                 string.push(c);
+                caret = if c == '\n' {
+                    caret.newline()
+                } else {
+                    caret.offset_pos(1)
+                };
 
                 if !back_slash {
                     if build_cur_expr > 0 {
@@ -186,7 +193,7 @@ pub fn into_tokens(c: char, it: &mut Peekable<Chars>, state: &mut State) -> LexR
 
                     if c == '{' {
                         if build_cur_expr == 0 {
-                            cur_offset = state.pos.offset_pos(string.len() + 1);
+                            cur_offset = caret;
                         }
                         build_cur_expr += 1;
                     } else if c == '}' {
@@ -215,7 +222,15 @@ pub fn into_tokens(c: char, it: &mut Peekable<Chars>, state: &mut State) -> LexR
                     .map(|(offset, string)| match tokenize_direct(string) {
                         Ok(tokens) => Ok(tokens
                             .iter()
-                            .map(|lex| Lex::new(lex.pos.offset(offset).start, lex.token.clone()))
+                            .map(|lex| {
+                                // Only the first line of the expression is shifted sideways.
+                                let start = if lex.pos.start.line == 1 {
+                                    lex.pos.start.offset(offset)
+                                } else {
+                                    lex.pos.start.offset(&CaretPos::new(offset.line, 1))
+                                };
+                                Lex::new(start, lex.token.clone())
+                            })
                             .collect()),
                         Err(err) => Err(err),
                     })
